@@ -1,5 +1,5 @@
 """Which obligations exist, which property each serves, how counterexamples are confirmed natively."""
-from .obligations import version, table, versionset, logs, iters, compaction, dbpaths
+from .obligations import version, table, versionset, logs, iters, compaction, dbpaths, builder
 
 ASSUMPTIONS = [
     'Engine B: the MIR executor (mirse/exec.py) and the std/dependency summaries (mirse/lib.py) are trusted; every counterexample is replayed on the native build, passing witnesses are replayed differentially',
@@ -54,6 +54,9 @@ OBLIGATIONS = {
     'O9.1': {'engine': 'B', 'title': 'no public method re-locks the non-reentrant database mutex on a path that holds it', 'run': dbpaths.o9_1_no_self_deadlock, 'confirm': dbpaths.o9_1_confirm},
     'O4.3': {'engine': 'B', 'title': 'two-level table iterator equals the cursor over the concatenated data blocks under every cursor pattern', 'run': iters.o4_3_two_level,
              'confirm': iters.o4_3_confirm, 'witness_ok': iters.o4_3_witness_ok},
+    'O10.5': {'engine': 'B', 'title': 'version edits: new version = base - deleted + added, levels >= 1 sorted and disjoint, no panic on well-formed edits', 'run': builder.o10_5_version_builder,
+              'confirm': builder.o10_5_confirm, 'witness_ok': builder.o10_5_witness_ok},
+    'O3.3': {'engine': 'B', 'title': 'get_live_files reports every table file of every live version (all seven levels)', 'run': builder.o3_3_live_files, 'confirm': builder.o3_3_confirm},
 }
 # Engine A obligations (Kani harnesses in /verif/harness/src/proofs.rs; runner in /verif/kani/runner.py)
 import importlib.util as _u, os as _os
@@ -63,19 +66,20 @@ for _n, (_title, _hs) in _kr.OBLIGATIONS.items():
     OBLIGATIONS[_n] = {'engine': 'A', 'title': _title, 'harnesses': [h for h, _ in _hs]}
 
 PROPERTIES = {
-    'C07': {'obligations': ['O7.1', 'O7.2', 'O7.3', 'O7.4a', 'O7.4b', 'O7.4c', 'O3.2a', 'O3.2b']},
+    'C07': {'obligations': ['O7.1', 'O7.2', 'O7.3', 'O7.4a', 'O7.4b', 'O7.4c', 'O3.2a', 'O3.2b', 'O10.5']},
     'C01': {'obligations': ['O1.1', 'O1.3', 'O1.4', 'O1.6', 'O1.7']},
     'C08': {'obligations': ['O8.2', 'O8.3']},
     'C05': {'obligations': ['O5.1', 'O6.1']},
     'C06': {'obligations': ['O6.1', 'O5.1']},
-    'C09': {'obligations': ['O9.1']},
+    'C09': {'obligations': ['O9.1', 'O10.5']},
     'C12': {'obligations': ['O12.1', 'O12.3', 'O12.4', 'O12.2']},
     'C13': {'obligations': ['O1.6', 'O4.3', 'O13.1', 'O1.1']},
     'C14': {'obligations': ['O14.1']},
     'C02': {'obligations': ['O12.3']},
     'C15': {'obligations': ['O15.5', 'O4.3', 'O15.1', 'O15.2', 'O15.3']},
     'C16': {'obligations': ['O12.3', 'O16.2']},
-    'C03': {'obligations': ['O1.6', 'O3.2a', 'O3.2b']},
+    'C03': {'obligations': ['O1.6', 'O3.2a', 'O3.2b', 'O3.3']},
     'C04': {'obligations': ['O4.1', 'O4.3']},
-    'C10': {'obligations': ['O7.1', 'O1.3', 'O10.3']},
+    'C10': {'obligations': ['O7.1', 'O1.3', 'O10.3', 'O10.5', 'O1.7']},
+    'C11': {'obligations': ['O3.3']},
 }
